@@ -210,14 +210,26 @@ def run(ctx):
     push = [c for c in cs if c[1].endswith("Vec::<T, A>::push") and "index_for_column_name" in c[2][1]]
     loops = cfg.natural_loops(f)
     okp = len(push) == 1
+    IDX = r"call@\d+:std::vec::Vec::<T>::with_capacity"
     if okp:
         nx = [c for c in cs if c[1].endswith("Iterator>::next") and "p1.column_names" in c[2][0]]
         okp = len(nx) == 1 and any(push[0][0] in bl and nx[0][0] in bl for bl in loops.values())
     from ..lib import unit_calls as _ucalls
     ucs = [(b, n, a, t) for (b, n, a, t, L) in _ucalls(prog, f, S)]
-    maps = [c for c in ucs if c[1].endswith("Iterator::map") and c[2] and re.search(r"iter\(&?\*?<std::vec::Vec<T, A> as std::ops::Deref>::deref\(&?call@\d+:std::vec::Vec::<T>::with_capacity\)\)", c[2][0])]
+    if not push:
+        # the index list collected in one go: column_names.iter().map(|n| index_for_column_name(n).ok_or_else(..)).collect::<io::Result<Vec<_>>>()?
+        for (b, n, a, t) in [(b_, n_, a_, t_) for (b_, n_, a_, t_, L_) in _ucalls(prog, f, S) if L_ is None]:
+            if n.endswith("Iterator::collect") and a and re.fullmatch(r"call@(\d+):std::iter::Iterator::map", a[0]):
+                mb = int(re.fullmatch(r"call@(\d+):.*", a[0]).group(1))
+                recv = S.val(f.blocks[mb]["term"]["args"][0])
+                inner_ok = any(L is not None and L.call_block == mb and any(cname(prog, tt).endswith("Table::index_for_column_name") for bb, tt in L.fn.calls())
+                               for (b2, n2, a2, t2, L) in _ucalls(prog, f, S))
+                if re.fullmatch(r"core::slice::<impl \[T\]>::iter\(&\*<std::vec::Vec<T, A> as std::ops::Deref>::deref\(&p1\.column_names\)\)", recv) and inner_ok:
+                    okp = True
+                    IDX = r"call@\d+:<std::result::Result<T, E> as std::ops::Try>::branch@Continue\.0"
+    maps = [c for c in ucs if c[1].endswith("Iterator::map") and c[2] and re.search(r"iter\(&?\*?<std::vec::Vec<T, A> as std::ops::Deref>::deref\(&?%s\)\)" % IDX, c[2][0])]
     # a projection may also be spelled as a loop over the index list that pushes into a fresh vector
-    idx_iter = r"iter\(&\*<std::vec::Vec<T, A> as std::ops::Deref>::deref\(&call@\d+:std::vec::Vec::<T>::with_capacity\)\)"
+    idx_iter = r"iter\(&\*<std::vec::Vec<T, A> as std::ops::Deref>::deref\(&%s\)\)" % IDX
     for c in cs:
         if c[1].endswith("Iterator>::next") and re.search(idx_iter, c[2][0]) and "Iterator::map" not in c[2][0]:
             body = [bl for h, bl in loops.items() if c[0] in bl]
